@@ -297,6 +297,32 @@ Section Ser.
     | _ => None
     end.
 
+  (** positional reader of a ClaimSchema (binary serializer): claim type tag, label, flag, then the
+      validator list with its length — validators with bounds and regexes (an AnyOne list of claims is
+      outside this reader) *)
+  Definition pos_validator (l : list tok) : option (validator * list tok) :=
+    match l with
+    | KVar 2 :: KStr s :: r => Some (VRegex s, r)
+    | _ => pos_bounds l
+    end.
+  Fixpoint pos_validators (n : nat) (l : list tok) : option (list validator * list tok) :=
+    match n with
+    | O => Some ([], l)
+    | S k => match pos_validator l with
+             | Some (v, r) => match pos_validators k r with Some (vs, r') => Some (v :: vs, r') | None => None end
+             | None => None
+             end
+    end.
+  Definition pos_claim_schema (l : list tok) : option (claim_schema * list tok) :=
+    match l with
+    | KU8 ty :: KStr lab :: KBool pf :: KLen n :: r =>
+        match pos_validators n r with
+        | Some (vs, r') => Some ({| cs_type := ctype_of_tag ty; cs_label := lab; cs_pf := pf; cs_validators := vs |}, r')
+        | None => None
+        end
+    | _ => None
+    end.
+
   (** which objects have a field the Serialize impl leaves out *)
   Definition validator_skips (v : validator) : bool :=
     match v with
